@@ -318,10 +318,10 @@ def r6(ctx, rep):
     ok = bool(loop) and show(loop[0]["e"]) == "tables" and "l.lower_table_decl(table, fq_ident)" in show_stmts(loop[0]["body"], maxdepth=8)
     rep.check(ok, "lowered-in-order", "tables must be lowered by iterating the sorted list in order (declaration before use)", file=f["file"], line=f["l"], fn=f["path"])
     ok = False
-    for n in walk(f["body"]):
-        if n.get("k") == "if" and show(n["c"]) == "is_main":
-            t = show_stmts(n["t"], maxdepth=8)
-            ok = "l.table_buffer.pop().unwrap()" in t and "main_relation = Some(main_table.relation)" in t
+    import guards as _g
+    for blk in _g.branches_when(f["body"], "is_main", True):
+            t = show_stmts(blk, maxdepth=8)
+            ok = ok or ("l.table_buffer.pop().unwrap()" in t and "main_relation = Some(main_table.relation)" in t)
     rep.check(ok, "main-popped", "the main pipeline must be taken out of the table list and become RelationalQuery.relation", file=f["file"], line=f["l"], fn=f["path"])
     q = None
     for n in walk(f["body"]):
